@@ -484,6 +484,8 @@ func (m *Dense) Exp(a Matrix) {
 	}
 
 	m.reuseAsNonZeroed(r, r)
+	aU, _ := untransposeExtract(a)
+	m.checkOverlapMatrix(aU)
 	if r == 1 {
 		m.mat.Data[0] = math.Exp(a.At(0, 0))
 		return
@@ -646,6 +648,8 @@ func (m *Dense) Pow(a Matrix, n int) {
 	}
 
 	m.reuseAsNonZeroed(r, c)
+	aU, _ := untransposeExtract(a)
+	m.checkOverlapMatrix(aU)
 
 	// Take possible fast paths.
 	switch n {
